@@ -2,6 +2,7 @@ package props
 
 import (
 	"astverif/demuxrules"
+	"astverif/extrarules"
 	"astverif/tables"
 )
 
@@ -26,5 +27,9 @@ func c06(c *Ctx) {
 		"Go semantics of append/slicing: x[:0] and make(T,0,n) have length 0"}
 	tables.T3(c.P, r)
 	demuxrules.New(c.P, r).C06()
+	// a parse error on one unit must not cost the following, intact units: accumulators are removed by the end-of-stream
+	// drain only (I8 of C07)
+	extrarules.WhoMayMutateMapField(c.P, r, "I8", "packetPool.b/mutated-by", "packetPool", "b", []string{"(*packetPool).addUnlocked"}, []string{"(*packetPool).dumpUnlocked"}, 1, 1,
+		"an accumulator removed outside the end-of-stream drain loses the head of the next unit of that PID")
 	r.Floor("C06", "obligations", len(r.Obls), 15)
 }
